@@ -57,7 +57,7 @@ LEVEL = 'model_checking'
 
 NSS = ('A', 'B', 'C')
 VERS = ('1.9', '1.10', '2.0', '2', '1.x')
-PROBE = VERS + ('3.0',)
+PROBE = VERS + ('3.0', '1.1', '1')      # is_registered(ns, v) probes; 1.1/1 are textual prefixes of 1.10/1.9/1.x
 DIRS = ('d1', 'd2', 'd3')
 DOMAIN = 'g-irepository-error-quark'
 NOT_FOUND, MISMATCH, CONFLICT = 0, 1, 2
@@ -78,7 +78,7 @@ def F(d, ns, ver, deps='', inner=None):
 
 WIDE = (
     [F(d, 'A', v) for v in VERS for d in ('d1', 'd2') if (d, v) != ('d2', '1.x')] +
-    [F('d3', 'A', '1.10'), F('d3', 'A', '2.0')] +
+    [F('d3', 'A', '1.10'), F('d3', 'A', '2.0'), F('d2', 'A', '1.1')] +
     [F('d1', 'A', '2.0', 'B-1.9'), F('d2', 'A', '2.0', 'B-1.9'), F('d2', 'A', '2', 'B-1.9+C-2.0'),
      F('d1', 'B', '1.9', 'C-2.0'), F('d2', 'B', '1.9'), F('d3', 'B', '1.9', 'C-2.0'), F('d2', 'B', '2'),
      F('d1', 'C', '2.0'), F('d2', 'C', '2.0'),
@@ -105,6 +105,23 @@ MENU = [
     ('m', 'A-2.0>B-1.9', 0), ('m', 'A-1.9', 0),
     ('r', 'B', None, 1),
 ]
+# BFS explorations also request 1.1, a textual prefix of 1.10 (both load orders with the file d2/A-1.1)
+MENU_BFS = MENU + [('r', 'A', '1.1', 0)]
+
+# Substring-related namespace names (own namespace alphabet and menu): T includes Ab-1.0 and CAb-1.0, in both
+# <include> orders; every include must be recorded in the typelib, loaded with T and listed as a dependency.
+SUBSTR_NSS = ('T', 'Ab', 'CAb')
+SUBSTR = [F('d1', 'T', '1.0', 'Ab-1.0+CAb-1.0'), F('d1', 'T', '1.0', 'CAb-1.0+Ab-1.0'),
+          F('d1', 'Ab', '1.0'), F('d2', 'Ab', '1.0'), F('d1', 'CAb', '1.0')]
+SUBSTR_MENU = [('r', 'T', None, 0), ('r', 'T', '1.0', 0), ('r', 'Ab', None, 0), ('r', 'CAb', '1.0', 0),
+               ('m', 'T-1.0>Ab-1.0+CAb-1.0', 0), ('m', 'T-1.0>CAb-1.0+Ab-1.0', 0)]
+
+
+def use_names(nss):
+    """namespace alphabet observed by the driver and the model (module global, set per job)"""
+    global NSS
+    NSS = tuple(nss)
+
 
 
 # Configurations that quick ALSO executes with one freshly forked process per history (and compares
@@ -150,7 +167,7 @@ def op_class(op):
     return 'load_typelib(memory%s)' % (',LAZY' if op[2] else '')
 
 
-_INST = re.compile(r'(d[123]/)?\b[A-CZ]-[0-9]+(\.[0-9x]+)?(\.typelib)?')
+_INST = re.compile(r'(d[123]/)?\b[A-Z][A-Za-z]*-[0-9]+(\.[0-9x]+)?(\.typelib)?')
 
 
 def reason_class(reason):
@@ -188,15 +205,15 @@ def content(key):
 
 
 def all_content_keys():
-    keys = set(f[3] for f in WIDE + CORE + WIDE_THOROUGH_EXTRA)
-    keys.update(op[1] for op in MENU if op[0] == 'm')
+    keys = set(f[3] for f in WIDE + CORE + WIDE_THOROUGH_EXTRA + SUBSTR)
+    keys.update(op[1] for op in MENU_BFS + SUBSTR_MENU if op[0] == 'm')
     return sorted(keys)
 
 
 def build_pool(b):
     """Compile every content key once per build: <builddir>/c17pool-<hash>/<key>.typelib"""
     keys = all_content_keys()
-    tag = hashlib.sha1(('v3|' + '|'.join(keys)).encode()).hexdigest()[:10]
+    tag = hashlib.sha1(('v4|' + '|'.join(keys)).encode()).hexdigest()[:10]
     pool = os.path.join(b.dir, 'c17pool-' + tag)
     if os.path.exists(os.path.join(pool, 'OK')):
         return pool
@@ -228,8 +245,9 @@ def build_pool(b):
         if rc != 0 or not data:
             return 'g-ir-compiler failed on %s: %s' % (key, err.strip()[-300:])
         model, probs = typelib.decode(data)
-        if model is None or model.get('namespace') != c.ns or model.get('nsversion') != c.ver or \
-                sorted(model.get('dependencies') or []) != sorted('%s-%s' % d for d in c.deps):
+        # (the recorded dependencies are NOT checked here: that every <include> is recorded, loaded and
+        # listed is part of what the model comparison decides)
+        if model is None or model.get('namespace') != c.ns or model.get('nsversion') != c.ver:
             return 'typelib for %s does not carry the expected header: %r %r' % (key, model and {
                 k: model.get(k) for k in ('namespace', 'nsversion', 'dependencies')}, probs)
         with open(out, 'wb') as f:
@@ -264,12 +282,10 @@ def numeric(v):
 
 
 def agree(requested, loaded):
-    """'yes' / 'no' / 'unspec' (numerically equal, textually different: 2 vs 2.0)"""
+    """'yes' / 'no': versions are strings (they name files <ns>-<version>.typelib); a different string of an
+    already loaded namespace does not agree, also when it is a prefix (1.1 / 1.10) or numerically equal (2 / 2.0)"""
     if requested is None or requested == loaded:
         return 'yes'
-    a, b = numeric(requested), numeric(loaded)
-    if a is not None and a == b:
-        return 'unspec'
     return 'no'
 
 
@@ -852,7 +868,7 @@ class Checker(object):
             return
         seen.add(key)
         hist = hist[:i + 1]
-        case = {'config': cfg.as_json(), 'ops': [list(o) for o in hist], 'step': i, 'asan': self.asan, 'mode': self.mode,
+        case = {'config': cfg.as_json(), 'ops': [list(o) for o in hist], 'step': i, 'asan': self.asan, 'mode': self.mode, 'nss': list(NSS),
                 'expected': expected, 'observed': observed}
         self.part.violation(key, '%s | setup=%s files=%s ops=%s' % (
             desc, cfg.setup, ' '.join('%s/%s-%s[%s]' % f for f in cfg.files) or '(none)',
@@ -1068,7 +1084,8 @@ def _keep_alive(b):
 
 def _work(chunk):
     part = Part()
-    mode, asan, xmode, menu, depth, cfgs = chunk
+    mode, asan, xmode, menu, depth, nss, cfgs = chunk
+    use_names(nss)
     pool = build_pool(cbuild.build(False))
     b = cbuild.build(asan)
     rn = Runner(b, pool, 'c17')
@@ -1145,41 +1162,49 @@ def run(ctx):
               'menu': [op_text(o) for o in MENU]}
     # (label, exploration, asan, execution, alphabet | explicit configurations, (min files, max files), depth)
     # sized for the measured rate of this VM (about 5000 histories/s over all 16 cores, it saturates at ~8 workers)
+    ABC = ('A', 'B', 'C')
     if not thorough:
-        plan = [('bfs-wide2', 'bfs', False, 'reset', WIDE, (0, 2), 2),
-                ('bfs-core3', 'bfs', False, 'reset', CORE, (3, 3), 2),
-                ('xcheck', 'bfs', False, 'both', XCHECK_QUICK, None, 2)]
+        plan = [('bfs-wide2', 'bfs', False, 'reset', WIDE, (0, 2), 2, MENU_BFS, ABC),
+                ('bfs-core3', 'bfs', False, 'reset', CORE, (3, 3), 2, MENU_BFS, ABC),
+                ('bfs-substr', 'bfs', False, 'reset', SUBSTR, (0, 3), 2, SUBSTR_MENU, SUBSTR_NSS),
+                ('xcheck', 'bfs', False, 'both', XCHECK_QUICK, None, 2, MENU_BFS, ABC)]
     else:
         cbuild.build(True).driver('drv_repo')
-        plan = [('all-core3', 'all', False, 'reset', CORE, (0, 3), 3),
-                ('bfs-wide3', 'bfs', False, 'reset', WIDE + WIDE_THOROUGH_EXTRA, (0, 3), 2),
-                ('bfs-asan', 'bfs', True, 'reset', CORE, (0, 2), 2),
-                ('xcheck', 'bfs', False, 'both', CORE, (0, 1), 2),
-                ('xcheck-family', 'bfs', False, 'both', XCHECK_QUICK, None, 2)]
+        plan = [('all-core3', 'all', False, 'reset', CORE, (0, 3), 3, MENU, ABC),
+                ('bfs-wide3', 'bfs', False, 'reset', WIDE + WIDE_THOROUGH_EXTRA, (0, 3), 2, MENU_BFS, ABC),
+                ('bfs-substr', 'bfs', False, 'reset', SUBSTR, (0, 4), 3, SUBSTR_MENU, SUBSTR_NSS),
+                ('bfs-asan', 'bfs', True, 'reset', CORE, (0, 2), 2, MENU_BFS, ABC),
+                ('xcheck', 'bfs', False, 'both', CORE, (0, 1), 2, MENU_BFS, ABC),
+                ('xcheck-family', 'bfs', False, 'both', XCHECK_QUICK, None, 2, MENU_BFS, ABC)]
     stride = int(os.environ.get('VERIF_C17_STRIDE', '0') or 0)      # development aid only
-    for label, mode, asan, xmode, alphabet, nfiles, depth in plan:
+    for label, mode, asan, xmode, alphabet, nfiles, depth, menu, nss in plan:
+        use_names(nss)
         for setup in sorted(SETUPS):
             if nfiles is None:
                 cfgs = [c for st, c in alphabet if st == setup]
                 bounds['%s/%s' % (label, setup)] = {'configurations': len(cfgs), 'max_ops': depth, 'execution': xmode,
-                                                    'state_dedup': True}
+                                                    'state_dedup': True, 'menu_ops': len(menu)}
             else:
-                cfgs, total, gsize = canonical_configs(setup, alphabet, MENU, nfiles[1], nfiles[0])
+                cfgs, total, gsize = canonical_configs(setup, alphabet, menu, nfiles[1], nfiles[0])
                 bounds['%s/%s' % (label, setup)] = {'file_alphabet': len(alphabet), 'files': '%d..%d' % nfiles, 'max_ops': depth,
                                                     'placements': total, 'canonical_configurations': len(cfgs),
                                                     'symmetry_group': gsize, 'state_dedup': mode == 'bfs',
-                                                    'execution': xmode}
+                                                    'execution': xmode, 'menu_ops': len(menu), 'namespaces': list(nss)}
                 if stride > 1:
                     cfgs = cfgs[::stride]
                     ctx.cap('VERIF_C17_STRIDE=%d: only every %d-th configuration' % (stride, stride))
             per = 2 if mode == 'all' else 1 if xmode == 'both' else 24
             for i in range(0, len(cfgs), per):
-                jobs.append((mode, asan, xmode, MENU, depth, [(setup, c) for c in cfgs[i:i + per]]))
+                jobs.append((mode, asan, xmode, menu, depth, nss, [(setup, c) for c in cfgs[i:i + per]]))
+    use_names(ABC)
+    bounds['menu_bfs'] = [op_text(o) for o in MENU_BFS]
+    bounds['menu_substr'] = [op_text(o) for o in SUBSTR_MENU]
     ctx.set(rule='configuration = setup x placement of files from a file alphabet (canonicalised under the renamings that '
                  'leave setup, alphabet and menu invariant; that group is trivial here). quick: model BFS with state '
-                 'de-duplication to depth 2 over the %d-operation menu, every edge replayed as the last step of its own '
-                 'history, over (bfs-wide2) every placement of <= 2 files of the 24-file WIDE alphabet and (bfs-core3) every '
-                 'placement of exactly 3 files of the 12-file CORE alphabet. thorough: (all-core3) every operation sequence of '
+                 'de-duplication to depth 2 over the %d-operation menu (+ require(A,1.1) in the BFS explorations), every edge replayed as the last step '
+                 'of its own history, over (bfs-wide2) every placement of <= 2 files of the 25-file WIDE alphabet, (bfs-core3) '
+                 'every placement of exactly 3 files of the 12-file CORE alphabet and (bfs-substr) every placement of <= 3 of 5 '
+                 'files over the namespaces T, Ab, CAb (T includes Ab and CAb, both include orders; own 6-op menu). thorough: (all-core3) every operation sequence of '
                  'length 1..3 WITHOUT de-duplication over every placement of <= 3 CORE files (<= 4 files does not fit 10 minutes '
                  'at the measured ~5000 histories/s), (bfs-wide3) depth-2 BFS over every placement of <= 3 files of WIDE + 6 '
                  'more files, (bfs-asan) depth-2 BFS over <= 2 CORE files with the ASan+UBSan build. '
@@ -1213,8 +1238,7 @@ def run(ctx):
         'neither) - an operation whose outcome differs between the two readings is not compared',
         'UNSPECIFIED: order and multiplicity of returned string lists (compared as sets); error code when a dependency '
         'fails; which dependencies stay loaded after a failed dependency load; NAMESPACE_MISMATCH vs '
-        'NAMESPACE_VERSION_CONFLICT for an inner-version mismatch; election between 2 and 2.0 in one directory; '
-        'require(ns,"2") while 2.0 is loaded; corrupt files; non-numeric versions in enumerate_versions; transitive '
+        'NAMESPACE_VERSION_CONFLICT for an inner-version mismatch; election between 2 and 2.0 in one directory; corrupt files; non-numeric versions in enumerate_versions; transitive '
         'dependencies of a lazily loaded namespace; dependencies of a privately required typelib that also exist in the '
         'private directory; re-requiring a lazily loaded namespace when a fresh election would pick another file',
     ]
@@ -1224,6 +1248,7 @@ def run(ctx):
 
 
 def replay(ctx, case):
+    use_names(case.get('nss') or ('A', 'B', 'C'))
     pool = build_pool(cbuild.build(False))
     b = cbuild.build(bool(case.get('asan')))
     rn = Runner(b, pool, 'c17r')
